@@ -38,9 +38,11 @@ def c09_int_str_limit(what, case):
     seen is that limit's ValueError, and in the keyword form reported every draft raised (no draft gave a verdict that
     could be wrong)"""
     forms = case.get("forms") or ["minimum", "exclusiveMinimum", "maximum", "exclusiveMaximum", "multipleOf",
-                                  "maximum+exclusiveMaximum", "minimum+exclusiveMinimum"]
+                                  "maximum+exclusiveMaximum", "minimum+exclusiveMinimum", "nested exclusiveMinimum",
+                                  "nested exclusiveMaximum"]
     alias = {"multipleOf_raises": "multipleOf", "maximum_with_exclusiveMaximum": "maximum+exclusiveMaximum",
-             "minimum_with_exclusiveMinimum": "minimum+exclusiveMinimum"}
+             "minimum_with_exclusiveMinimum": "minimum+exclusiveMinimum",
+             "nested_exclusiveMinimum": "nested exclusiveMinimum", "nested_exclusiveMaximum": "nested exclusiveMaximum"}
     form = alias.get(what, what)
     if form not in forms or not case.get("beyond_int_str_limit"):
         return False
